@@ -269,8 +269,17 @@ def pair_oracle(ctx, o_pair, first_only=False):
                     # the legacy "$2$" ident repeats the password up to 72 bytes before hashing: multi-byte text must survive that on every backend
                     kw["ident"] = "2"
                     quick_pws = ["pässwörd".encode(), "日本語 pass".encode(), "🔑key".encode(), b"ascii", "é".encode() * 5]
-                for pw in (PWS if (not slow or ctx.thorough) and not (name == "bcrypt" and rep == reps) else quick_pws):
-                    if name in ("bcrypt", "bcrypt_sha256") and "os_crypt" in avail:
+                # text passwords too — in Unicode spellings a normaliser would rewrite: every backend must hash the text's UTF-8 bytes as given
+                texts = ["cafe\u0301", "\u1100\u1161\u11a8", "A\u030a \u212b", "p\u00e4ss\u00f8"] if rep == 0 else []
+                for pw in list(PWS if (not slow or ctx.thorough) and not (name == "bcrypt" and rep == reps) else quick_pws) + texts:
+                    if isinstance(pw, str):
+                        utf8 = True
+                        as_bytes_pw = pw.encode("utf-8")
+                    else:
+                        as_bytes_pw = pw
+                    if isinstance(pw, str):
+                        pass
+                    elif name in ("bcrypt", "bcrypt_sha256") and "os_crypt" in avail:
                         try:
                             pw.decode("utf-8")
                             utf8 = True
@@ -288,6 +297,12 @@ def pair_oracle(ctx, o_pair, first_only=False):
                         except Exception as e:  # noqa: BLE001
                             outs[b] = "err " + errname(e) + ": " + str(e)[:80]
                     ok = len(set(outs.values())) == 1 and not next(iter(outs.values())).startswith("err ")
+                    if ok and isinstance(pw, str):
+                        # … and it is the hash of the UTF-8 bytes
+                        h.set_backend(avail[-1])
+                        ok = h.verify(as_bytes_pw, next(iter(outs.values()))) is True
+                        if not ok:
+                            outs = dict(outs, **{"verify-utf8-bytes": False})
                     # availability queries in between must not change what the selected backend computes
                     if ok and rng.random() < 0.5:
                         for b in avail:
@@ -308,7 +323,7 @@ def pair_oracle(ctx, o_pair, first_only=False):
                                 continue
                             h.set_backend(b)
                             ok = ok and h.verify(pw, next(iter(outs.values())))
-                    inp = {"op": "pair", "hasher": name, "kwds": {k: (v.hex() if isinstance(v, bytes) else v) for k, v in kw.items()}, "pwd": pw.hex(), "backends": avail}
+                    inp = {"op": "pair", "hasher": name, "kwds": {k: (v.hex() if isinstance(v, bytes) else v) for k, v in kw.items()}, "pwd": as_bytes_pw.hex(), "text": isinstance(pw, str), "backends": avail}
                     o_pair.check(name, ok, inp, outs, "the same string from every loadable backend")
                     if not ok:
                         fails.append({"input": inp, "observed": outs, "expected": "the same string from every loadable backend"})
@@ -370,6 +385,8 @@ def replay(ctx, inp):
         h = getattr(H, inp["hasher"])
         kw = {k: (bytes.fromhex(v) if k == "salt" and inp["hasher"] == "scrypt" else v) for k, v in inp["kwds"].items()}
         pw = bytes.fromhex(inp["pwd"])
+        if inp.get("text"):
+            pw = pw.decode("utf-8")
         outs = {}
         orig = h.get_backend()
         try:
